@@ -21,6 +21,7 @@ func extractAll() {
 	safely("net", netFacts)
 	safely("nodeconn", nodeConnFacts)
 	safely("backoff", backoffFacts)
+	safely("backoffArith", backoffArith)
 	safely("access", accessFacts)
 }
 
@@ -1045,4 +1046,25 @@ func backoffFacts() {
 		chanUses = p.mentions(f, "backoffCfg: n.mgr.opts.backoff")
 	}
 	defBool("ch_usesMgrBackoff", chanUses)
+}
+
+// backoffArith: the statements of the back-off arithmetic in reconnect (model Backoff.lean), as source text
+func backoffArith() {
+	p := loadDir("")
+	var stmts []string
+	if f := p.findFunc("channel.go", "channel.reconnect"); f != nil {
+		if loop := firstFor(f); loop != nil {
+			on := false
+			for _, st := range loop.Body.List {
+				src := p.src(st)
+				if strings.HasPrefix(src, "delay := ") {
+					on = true
+				}
+				if on {
+					stmts = append(stmts, src)
+				}
+			}
+		}
+	}
+	defStrList("ch_backoffArith", stmts)
 }
